@@ -8,10 +8,37 @@
     and [spec_confirm] (every unconfirmed transaction conflicting with the
     confirmed one, and their unconfirmed descendants, disappear; nothing else)
     in Tx/Ledger.v; the refinement says the store follows exactly these steps.
-    The "consequently" sentence is [C02_statement]. *)
+    The "consequently" sentence is [C02_same_facts_same_observables].
+
+    Scope notes.
+    - [C02_disconnect_semantics] and [C02_confirm_semantics] are statements
+      about the LEDGER definitions only (no store in them): they say that
+      [spec_disconnect] / [spec_confirm] mean what the property's first
+      sentence says.  The store enters through
+      [C02_store_follows_ledger_steps] (refinement) and the pair theorem.
+    - "The same facts" ([same_facts], Tx/Corollaries.v) are: the same
+      confirmed transactions per block, the same unconfirmed transactions AND
+      the same raw leases (outpoint -> lock id, expiry).  Leases are facts a
+      history establishes (C12) and the reported balance and spendable set
+      depend on them; without equal leases the conclusion is false.  The
+      generator therefore builds pairs with lease events on both sides.
+    - "Transaction details" are the block, the credits (index, amount, spent,
+      change) and the debits (index, amount) of [TxDetails].  NOT covered:
+      [TxRecord.Received] - the caller-supplied time of the delivery that
+      recorded the transaction.  It is an INPUT of a history, not a function of
+      the surviving facts: [Seen t] delivered at two different times gives two
+      histories with equal final facts and different [Received] under any
+      implementation, with no reorganisation involved; the Go store keeps the
+      time of the last delivery that inserted the record.  Also not covered:
+      the label (no event of the model sets one).  The block time is part of
+      the block (an event carries hash and time together); the harness compares
+      it between the two histories.
+    - The wallet's [disconnectBlock] is in the model (Tx/Wallet.v):
+      [C02_wallet_disconnect_is_rollback], [C02_wallet_layer_path_independence]. *)
 From stdpp Require Import gmap list numbers sorting.
 From Coq Require Import ZArith NArith.
 From Verif Require Import Tx.Store Tx.Ledger Tx.Hist Tx.Inv Tx.Refine Tx.RefineAll Tx.Corollaries Tx.InvRollback.
+From Verif Require Import Tx.Wallet Tx.WalletProofs.
 Local Open Scope Z_scope.
 
 (** Blocks disconnected from height h (first sentence, first half). *)
@@ -60,6 +87,36 @@ Theorem C02_same_facts_same_observables :
 Proof. exact c02_holds. Qed.
 Print Assumptions C02_same_facts_same_observables.
 
+(** What the wallet's [disconnectBlock] does to the store: nothing, or exactly
+    [Rollback(height)] together with "synced to the parent" - the latter
+    precisely when the wallet is synced, the block's height is at or below the
+    synced height and the hash recorded at that height is the block's. *)
+Theorem C02_wallet_disconnect_is_rollback : ∀ U w h bhash,
+  w_m (wstep U w (WDisconnect h bhash)).1 = w_m w ∨
+  (disconnect_applies w h bhash = Some true ∧
+   w_m (wstep U w (WDisconnect h bhash)).1 = (step U (w_m w) (Disconnect h)).1 ∧
+   w_tip (wstep U w (WDisconnect h bhash)).1 = h - 1).
+Proof. exact wallet_disconnect_is_rollback. Qed.
+Print Assumptions C02_wallet_disconnect_is_rollback.
+
+(** Path independence for NOTIFICATION histories (connects, tip-down
+    disconnects, stale and future disconnects, relevant transactions before /
+    after / together with their block): if their store-level images are
+    chain-consistent and establish the same facts, the wallets' stores report
+    the same balances, spendable outputs and details. *)
+Theorem C02_wallet_layer_path_independence : ∀ (U : universe) (ns1 ns2 : list wnotif),
+  wf_universe U = true →
+  chain_consistent U (wevents U ns1) = true → chain_consistent U (wevents U ns2) = true →
+  same_facts (fs (spec_run U (wevents U ns1))) (fs (spec_run U (wevents U ns2))) →
+  let s1 := st (w_m (wrun U ns1)) in let s2 := st (w_m (wrun U ns2)) in
+  (∀ minconf sync now, 0 <= minconf →
+     (∀ t hh b, f_conf (fs (spec_run U (wevents U ns1))) !! t = Some (hh, b) → hh <= sync) →
+     balance U s1 minconf sync now = balance U s2 minconf sync now) ∧
+  (∀ now, unspent_outputs U s1 now ≡ₚ unspent_outputs U s2 now) ∧
+  (∀ t, tx_details U s1 t = tx_details U s2 t).
+Proof. exact wallet_c02. Qed.
+Print Assumptions C02_wallet_layer_path_independence.
+
 (** Non-vacuity: a history with a rollback and reconnection in another block
     and the direct construction of its final facts. *)
 Definition mk (id : N) (ins : list (N * N)) (outs : list Z) (creds : list (N * bool)) (cb : bool) : tx :=
@@ -77,4 +134,24 @@ Example C02_nonvacuous :
   f_conf (fs (spec_run ex_U ex_h1)) = f_conf (fs (spec_run ex_U ex_h2)) ∧
   f_unconf (fs (spec_run ex_U ex_h1)) = f_unconf (fs (spec_run ex_U ex_h2)) ∧
   balance ex_U (st (run ex_U ex_h1)) 1 10 0 = 7000.
+Proof. vm_compute. repeat split. Qed.
+
+(** ... and a pair in which the SAME blocks are detached and connected again
+    in another order, with a lease on both sides (same raw leases, same
+    clock), against a second history that takes a detour through a block of
+    another fork. *)
+Definition ex_h3 : list event :=
+  [ Confirm 2%N 10 1%N 0; Confirm 4%N 11 2%N 0; Lease 1%N (2, 1)%N 1500; Disconnect 10;
+    Seen 4%N; Confirm 2%N 10 1%N 0; Confirm 4%N 11 2%N 0; Tick 1000 ].
+Definition ex_h4 : list event :=
+  [ Confirm 2%N 10 7%N 0; Confirm 4%N 10 7%N 0; Disconnect 10; Confirm 2%N 10 1%N 0; Confirm 4%N 11 2%N 0;
+    Lease 1%N (2, 1)%N 1000; Tick 1000 ].
+Example C02_nonvacuous_reconnect_and_leases :
+  chain_consistent ex_U ex_h3 = true ∧ chain_consistent ex_U ex_h4 = true ∧
+  f_conf (fs (spec_run ex_U ex_h3)) = f_conf (fs (spec_run ex_U ex_h4)) ∧
+  f_unconf (fs (spec_run ex_U ex_h3)) = f_unconf (fs (spec_run ex_U ex_h4)) ∧
+  map_to_list (f_leases (fs (spec_run ex_U ex_h3))) = [((2, 1)%N, {| l_id := 1%N; l_expiry := 1000 |})] ∧
+  map_to_list (f_leases (fs (spec_run ex_U ex_h4))) = [((2, 1)%N, {| l_id := 1%N; l_expiry := 1000 |})] ∧
+  balance ex_U (st (run ex_U ex_h3)) 1 11 999 = 4000 ∧
+  balance ex_U (st (run ex_U ex_h4)) 1 11 1000 = 4000 + 7000.
 Proof. vm_compute. repeat split. Qed.
